@@ -167,9 +167,15 @@ func execC35(t *testing.T, c C35Case) *Verdict {
 		cfg.Stall = map[string]int{"h.cleanup": c.StallCleanup}
 	}
 	cfg.Guards = map[string]func() bool{
-		// an eviction reaches the executor's exclusive lock only when no Run is in
-		// flight and nothing a Run spawned is still alive (see incrBubbleCfg)
-		"i.evict.lock": func() bool { return long == nil || long.active == 0 && !sim.SpawnedParked() },
+		// an eviction reaches the executor's exclusive lock only while that lock
+		// can really be taken and nothing a Run spawned is still alive (see incrBubbleCfg)
+		"i.evict.lock": func() bool {
+			if long == nil {
+				return true
+			}
+			canLock, _ := long.exec.VerifDirtyState()
+			return canLock && !sim.SpawnedParked()
+		},
 		// A Run reaches the executor's shared lock only while that lock can be
 		// taken (it cannot while an eviction holds the exclusive lock across a
 		// parked cleanup): decided by probing the real lock, not by a model, so
